@@ -7,6 +7,7 @@ import (
 	"math"
 	"reflect"
 	"sort"
+	"sync"
 
 	"github.com/bmeg/grip/engine/logic"
 	"github.com/bmeg/grip/gdbi"
@@ -926,6 +927,19 @@ func (b both) Process(ctx context.Context, man gdbi.Manager, in gdbi.InPipe, out
 		for i, p := range procs {
 			p.Process(ctx, man, chanIn[i], chanOut[i])
 		}
+		//drain the outputs while the input is being fed: with the outputs
+		//read only after the input ended, a few thousand rows filled every
+		//buffer and the step blocked for ever
+		wg := &sync.WaitGroup{}
+		for i := range procs {
+			wg.Add(1)
+			go func(c chan gdbi.Traveler) {
+				defer wg.Done()
+				for t := range c {
+					out <- t
+				}
+			}(chanOut[i])
+		}
 		for t := range in {
 			if t.IsSignal() {
 				out <- t
@@ -938,11 +952,7 @@ func (b both) Process(ctx context.Context, man gdbi.Manager, in gdbi.InPipe, out
 		for _, ch := range chanIn {
 			close(ch)
 		}
-		for i := range procs {
-			for c := range chanOut[i] {
-				out <- c
-			}
-		}
+		wg.Wait()
 	}()
 	return ctx
 }
